@@ -273,6 +273,9 @@ func (h *Hist) OpAuthorize() AuthResult {
 		a.ShortID = h.NextID + 100
 		a.PublicKey = Key("neverauthorized").Pub
 		signer := []*KeyPair{h.N.Temp, h.N.Key, d.Key, Key("gcaB")}[c.Int("signer", 4)]
+		if signer == nil || signer.Priv == (glow.PrivateKey{}) {
+			signer = h.N.Temp // the server generated its own key, the harness does not hold it
+		}
 		a = SignAuth(signer, a)
 		if c.Chance("zero-sig", 1, 4) {
 			a.Signature = glow.Signature{}
